@@ -10,9 +10,10 @@ cd $WT
 T1=$(PYTHONPATH=$WT/src /venv/bin/python -m pytest -q -p no:cacheprovider 2>&1 | tail -1)
 set +e
 PYTHONPATH=$WT/src timeout 600 /venv/bin/python demo_$P.py > $D/demo_with_change.out 2>&1; R1=$?
-git stash -q
+# the stash is shared by all worktrees of a repository: undo and re-apply the saved diff instead
+git checkout -q -- src
 PYTHONPATH=$WT/src timeout 600 /venv/bin/python demo_$P.py > $D/demo_without_change.out 2>&1; R0=$?
-git stash pop -q
+git apply $D/patch.diff
 set -e
 echo "tests_with_change: $T1"; echo "demo_with_change_exit=$R1 demo_without_change_exit=$R0"
 echo "$T1" > $D/tests_with_change.out
